@@ -85,6 +85,11 @@ def truth_in_cd_order(c):
     return [tm[i] for i in order if i < len(tm)]
 
 
+def dd64_key(a):
+    """empty member whose 24-byte descriptor is measured as 16 bytes; since relic 005bb9c only when version-needed < 45"""
+    return "C17:readDataDesc:dd64-usize0" if a["reader"] >= 45 else "C17:readDataDesc:dd64-usize0-version20"
+
+
 def feats(c):
     return set(c.get("features") or []) | set(c.get("src_features") or [])
 
@@ -107,7 +112,7 @@ def classify_read_failure(c):
     return "C17:read:" + (e[:40].replace(" ", "-") or "mismatch")
 
 
-def oracle_archive(c, py, F, writer_output):
+def oracle_archive(c, py, F, writer_output, rootkey=None):
     """c: case with go/relic/stream observations of one VALID archive; py: Python's view. Reports into F.
     Returns True when relic read the archive without any disagreement (used to decide what else can be judged)."""
     g, r = c["go"], c["relic"]
@@ -120,7 +125,7 @@ def oracle_archive(c, py, F, writer_output):
         c["_refs_disagree"] = True
         return False
     if r["err"] or r["panic"]:
-        F.add(classify_read_failure(c), "standard readers list %d members; zipslicer.Read fails: %s" % (len(gm), (r["err"] + r["panic"])[:80]), c)
+        F.add(rootkey() if rootkey else classify_read_failure(c), "standard readers list %d members; zipslicer.Read fails: %s" % (len(gm), (r["err"] + r["panic"])[:80]), c)
         return False
     rm = r["members"] or []
     if [m["name"] for m in rm] != [m["name"] for m in gm]:
@@ -148,7 +153,7 @@ def oracle_archive(c, py, F, writer_output):
             ok = False
             continue
         if want is not None and a["total"] != want:
-            key = "C17:readDataDesc:dd64-usize0" if (a["usize"] == 0 and want - a["total"] == 8) else "C17:GetTotalSize:wrong-length"
+            key = dd64_key(a) if (a["usize"] == 0 and want - a["total"] == 8) else "C17:GetTotalSize:wrong-length"
             F.add(key, "member %r: GetTotalSize=%d (descriptor %d bytes) but the entry is %d bytes long" % (nm, a["total"], a["ddlen"], want), c)
             ok = False
         if a["crc"] != b["crc"]:
@@ -174,7 +179,13 @@ def oracle_archive(c, py, F, writer_output):
                             bad = "member differs: %s %s" % (x["total_err"], x["open_err"])
                             break
             if bad:
-                key = "C17:stream:directory-order-differs-from-file-order" if "seek backwards" in bad and "cd-reordered" in feats(c) else "C17:stream:differs-from-random-access"
+                key = "C17:stream:differs-from-random-access"
+                if "seek backwards" in bad and "cd-reordered" in feats(c):
+                    key = "C17:stream:directory-order-differs-from-file-order"
+                elif "seek backwards" in bad and any(a["flags"] & 8 and a["usize"] == 0 and a["ddlen"] == 16 and a["reader"] >= 45 for a in rm[:-1]):
+                    # a real 16-byte descriptor of an empty member with version-needed >= 45: readDataDesc tries the 64-bit
+                    # form first and thereby consumes 8 bytes of the next local header from the forward-only stream
+                    key = "C17:stream:desc16-empty-version45-overread"
                 F.add(key, "%s pass fails where random access succeeds: %s" % (mode, bad), c)
                 ok = False
                 break
@@ -193,6 +204,8 @@ def oracle_archive(c, py, F, writer_output):
         o = r[k]
         if "nil pointer" in o["panic"]:
             F.add("C17:GetOriginalDirectory:nil-writer-panic", "GetOriginalDirectory(%s) panics: %s" % (trim, o["panic"]), c)
+        elif "signature is missing" in o["err"]:
+            F.add("C17:readDataDesc:nosig", "GetOriginalDirectory(%s) fails: %s" % (trim, o["err"]), c)
         elif o["panic"] or o["err"]:
             F.add("C17:GetOriginalDirectory:fails", "GetOriginalDirectory(%s): %s%s" % (trim, o["err"], o["panic"]), c)
         elif o["cd"] + o["eod"] != tail and not trim:
@@ -200,24 +213,30 @@ def oracle_archive(c, py, F, writer_output):
     return ok
 
 
+def writer_root_cause(c, src, srcpy):
+    """attribute a bad relic-written archive to the defect that caused it (mis-measured member of the source, non-contiguous source)"""
+    kind = c["kind"]
+    # attribute to the reader defect when relic mis-measured a member of the source archive
+    if src is not None and srcpy is not None and not srcpy["err"] and src.get("relic") and not (src["relic"]["err"] or src["relic"]["panic"]):
+        sf = feats(src) | feats(c)
+        rm = src["relic"]["members"] or []
+        if len(rm) == len(srcpy["members"]):
+            for i, a in enumerate(rm):
+                if "signature is missing" in a["total_err"]:
+                    return "C17:readDataDesc:nosig"
+                if not ({"gap", "gapcd"} & sf) and not a["total_err"] and a["total"] != boundaries(srcpy, i):
+                    return dd64_key(a) if a["usize"] == 0 and boundaries(srcpy, i) - a["total"] == 8 else "C17:GetTotalSize:wrong-length"
+        if {"gap", "gapcd", "cd-reordered"} & sf:
+            return "C17:AddFile:source-not-contiguous-in-directory-order"
+    return "C17:writer:%s:output-unreadable" % kind
+
+
 def oracle_writer(c, py, src, srcpy, F):
     """an archive relic wrote (mangle/jar/fresh) must be read by the standard readers as the expected member list"""
     kind = c["kind"]
 
     def root_cause():
-        # attribute to the reader defect when relic mis-measured a member of the source archive
-        if src is not None and srcpy is not None and not srcpy["err"] and src.get("relic") and not (src["relic"]["err"] or src["relic"]["panic"]):
-            sf = feats(src) | feats(c)
-            rm = src["relic"]["members"] or []
-            if len(rm) == len(srcpy["members"]):
-                for i, a in enumerate(rm):
-                    if "signature is missing" in a["total_err"]:
-                        return "C17:readDataDesc:nosig"
-                    if not ({"gap", "gapcd"} & sf) and not a["total_err"] and a["total"] != boundaries(srcpy, i):
-                        return "C17:readDataDesc:dd64-usize0" if a["usize"] == 0 and boundaries(srcpy, i) - a["total"] == 8 else "C17:GetTotalSize:wrong-length"
-            if {"gap", "gapcd", "cd-reordered"} & sf:
-                return "C17:AddFile:source-not-contiguous-in-directory-order"
-        return "C17:writer:%s:output-unreadable" % kind
+        return writer_root_cause(c, src, srcpy)
     if not c.get("zip"):
         why = c.get("mangle_err", "") + c.get("mangle_panic", "") + c.get("jar_err", "") + c.get("fresh_err", "") + c.get("patch_err", "")
         if src is not None and src.get("valid", True) and src["go"]["err"] == "" and not (src["relic"]["err"] or src["relic"]["panic"]):
@@ -369,7 +388,8 @@ def run(ctx, replay=None):
         if not c.get("zip"):
             if c["kind"] in ("mangle", "mangle2", "jar", "fresh"):
                 src = byid.get(c.get("src"))
-                oracle_writer(c, None, src, pyv.get(c.get("src")), F)
+                if src is None or src["kind"] == "gen" or src.get("_ok"):
+                    oracle_writer(c, None, src, pyv.get(c.get("src")), F)
             continue
         zb = bytes.fromhex(c["zip"])
         if c["kind"] == "malformed":
@@ -397,9 +417,13 @@ def run(ctx, replay=None):
         else:
             stats["writer_outputs"] += 1
             src = byid.get(c.get("src"))
+            if src is not None and src["kind"] != "gen" and not src.get("_ok"):
+                stats["skipped_broken_source"] = stats.get("skipped_broken_source", 0) + 1
+                continue
             okw = oracle_writer(c, py, src, pyv.get(c.get("src")), F)
             # relic must read back what it wrote exactly like the standard readers
-            okr = oracle_archive(c, py, F, True) if okw else False
+            okr = oracle_archive(c, py, F, True, lambda: writer_root_cause(c, src, pyv.get(c.get("src")))) if okw else False
+            c["_ok"] = okw and okr
             if okw and okr:
                 stats["writer_ok"] += 1
     for c in big:
@@ -468,7 +492,7 @@ def run(ctx, replay=None):
 
     # ---------------------------------------------------------------- verdicts
     def slim(c):
-        d = {k: v for k, v in c.items() if k not in ("py", "_refs_disagree")}
+        d = {k: v for k, v in c.items() if k not in ("py", "_refs_disagree", "_ok")}
         if c.get("src") is not None and c["src"] in byid and c["kind"] in ("mangle", "mangle2"):
             s = byid[c["src"]]
             d["src_zip"] = s.get("zip", "")
